@@ -63,11 +63,52 @@ Proof.
   cbn [contains_byte] in H. apply orb_false_iff in H as [H1 H2]. cbn [ends_with_bslash]. destruct s; [exact H1|now apply IH].
 Qed.
 
-Lemma cut_options_id s : no_option_marker s = true -> cut_options s = s.
+(* an option marker starts with '-' *)
+Definition hd_not_dash (s : bytes) : bool := match s with d :: _ => negb (d =? DASH) | [] => true end.
+
+Lemma option_here_dash s : hd_not_dash s = true -> option_here s = false.
 Proof.
-  induction s as [|c s IH]; intros H; [reflexivity|].
-  cbn [no_option_marker] in H. apply andb_true_iff in H as [H1 H2]. apply negb_true_iff in H1.
-  cbn [cut_options]. now rewrite H1, (IH H2).
+  destruct s as [|d s]; [reflexivity|]. cbn [hd_not_dash]. intros H. apply negb_true_iff in H.
+  unfold option_here, s_hash, s_global_option, s_config_settings, s_dashC. cbn [has_prefix].
+  change 45 with DASH. rewrite (N.eqb_sym DASH d), H. reflexivity.
+Qed.
+
+Lemma hd_not_dash_app a b : (forall c, In c a -> c <> DASH) -> hd_not_dash b = true -> hd_not_dash (a ++ b) = true.
+Proof.
+  destruct a as [|c a]; intros Ha Hb; [exact Hb|]. cbn. apply negb_true_iff, N.eqb_neq. apply Ha. now left.
+Qed.
+
+(* a stretch without '-' followed by something that does not start with '-' is never cut *)
+Lemma cut_opt_ws_nodash a b : (forall c, In c a -> c <> DASH) -> hd_not_dash b = true ->
+  cut_opt_ws (a ++ b) = a ++ cut_opt_ws b.
+Proof.
+  induction a as [|c a IH]; intros Ha Hb; [reflexivity|].
+  cbn [app cut_opt_ws]. rewrite option_here_dash, andb_false_r.
+  - rewrite IH; [reflexivity|intros x Hx; apply Ha; now right|exact Hb].
+  - apply hd_not_dash_app; [intros x Hx; apply Ha; now right|exact Hb].
+Qed.
+
+(* a stretch without white space is never cut *)
+Lemma cut_opt_ws_nows a b : (forall c, In c a -> re_space c = false) -> cut_opt_ws (a ++ b) = a ++ cut_opt_ws b.
+Proof.
+  induction a as [|c a IH]; intros Ha; [reflexivity|].
+  cbn [app cut_opt_ws]. rewrite (Ha c (or_introl eq_refl)). cbn [andb].
+  rewrite IH; [reflexivity|intros x Hx; apply Ha; now right].
+Qed.
+
+Lemma blank_no_dash l : forallb blank_byte l = true -> forall c, In c l -> c <> DASH.
+Proof.
+  intros H c Hc. rewrite forallb_forall in H. specialize (H c Hc). unfold blank_byte, DASH in *. bool_hyps; subst; lia.
+Qed.
+Lemma ver_no_dash l : forallb ver_byte l = true -> forall c, In c l -> c <> DASH.
+Proof.
+  intros H c Hc. rewrite forallb_forall in H. specialize (H c Hc). unfold ver_byte, alnum, DASH in *. bool_hyps; subst; lia.
+Qed.
+Lemma name_no_space l : forallb name_byte l = true -> forall c, In c l -> re_space c = false.
+Proof.
+  intros H c Hc. rewrite forallb_forall in H. specialize (H c Hc). unfold name_byte, alnum, re_space, DASH in *.
+  assert (c <> 9 /\ c <> 10 /\ c <> 12 /\ c <> 13 /\ c <> 32) as (A & B & C & D & E) by (bool_hyps; subst; lia).
+  apply N.eqb_neq in A, B, C, D, E. now rewrite A, B, C, D, E.
 Qed.
 
 Lemma remove_ws_app a b : remove_ws (a ++ b) = remove_ws a ++ remove_ws b.
@@ -203,13 +244,36 @@ Proof.
   reflexivity.
 Qed.
 
+Lemma rq_line_uncut r y :
+  wf_rq_rec r = true -> wf_rq_rlay y = true -> valid_pkg (rq_name r) = true -> cut_options (rq_line r y) = rq_line r y.
+Proof.
+  intros Hr Hy Hv. apply wf_rq_rec_parts in Hr as (N & Vne & V). apply wf_rq_rlay_parts in Hy as (_ & L & W1 & W2 & T).
+  unfold all_blank in *.
+  assert (hd_not_dash (rq_name r ++ rl_ws1 y ++ s_eq2 ++ rl_ws2 y ++ rq_version r ++ rl_trail y) = true) as Hn.
+  { unfold valid_pkg in Hv. destruct (rq_name r) as [|c0 nm]; [discriminate|]. destruct nm; [discriminate|].
+    apply andb_true_iff in Hv as [Hw _]. cbn. apply negb_true_iff, N.eqb_neq. unfold word_byte, DASH in *. bool_hyps; subst; lia. }
+  assert (hd_not_dash (rq_version r ++ rl_trail y) = true) as Hv2
+    by (apply hd_not_dash_app; [now apply ver_no_dash|destruct (rl_trail y) as [|t0 tr]; [reflexivity|];
+        cbn; apply negb_true_iff, N.eqb_neq; apply (blank_no_dash _ T); now left]).
+  unfold cut_options, rq_line.
+  rewrite option_here_dash by (apply hd_not_dash_app; [now apply blank_no_dash|exact Hn]).
+  rewrite cut_opt_ws_nodash; [|now apply blank_no_dash|exact Hn].
+  rewrite cut_opt_ws_nows by (now apply name_no_space).
+  rewrite cut_opt_ws_nodash; [|now apply blank_no_dash|apply hd_not_dash_app; [intros c [<-|[<-|[]]]; discriminate|apply hd_not_dash_app; [now apply blank_no_dash|exact Hv2]]].
+  rewrite cut_opt_ws_nodash; [|intros c [<-|[<-|[]]]; discriminate|apply hd_not_dash_app; [now apply blank_no_dash|exact Hv2]].
+  rewrite cut_opt_ws_nodash; [|now apply blank_no_dash|exact Hv2].
+  rewrite cut_opt_ws_nodash; [|now apply ver_no_dash|destruct (rl_trail y) as [|t0 tr]; [reflexivity|cbn; apply negb_true_iff, N.eqb_neq; apply (blank_no_dash _ T); now left]].
+  rewrite <- (app_nil_r (rl_trail y)) at 1. rewrite cut_opt_ws_nodash; [|now apply blank_no_dash|reflexivity].
+  cbn [cut_opt_ws]. now rewrite app_nil_r.
+Qed.
+
 Lemma rq_line_logical r y :
-  wf_rq_rec r = true -> wf_rq_rlay y = true -> valid_pkg (rq_name r) = true -> no_option_marker (rq_line r y) = true ->
+  wf_rq_rec r = true -> wf_rq_rlay y = true -> valid_pkg (rq_name r) = true ->
   req_logical (rq_line r y) = Ok [(rq_name r, rq_version r)].
 Proof.
-  intros Hr Hy Hv Ho. pose proof (rq_line_safe r y Hr Hy) as Hs.
+  intros Hr Hy Hv. pose proof (rq_line_safe r y Hr Hy) as Hs. pose proof (rq_line_uncut r y Hr Hy Hv) as Ho.
   apply wf_rq_rec_parts in Hr as (N & Vne & V). apply wf_rq_rlay_parts in Hy as (_ & L & W1 & W2 & T).
-  unfold req_logical. rewrite cut_options_id by exact Ho.
+  unfold req_logical. rewrite Ho.
   assert (remove_ws (rq_line r y) = rq_name r ++ s_eq2 ++ rq_version r) as ->.
   { unfold rq_line, all_blank in *. rewrite !remove_ws_app.
     rewrite (remove_ws_blank _ L), (remove_ws_blank _ W1), (remove_ws_blank _ W2), (remove_ws_blank _ T).
@@ -233,10 +297,10 @@ Proof.
 Qed.
 
 Lemma rq_record_step r y rest tl :
-  wf_rq_rec r = true -> wf_rq_rlay y = true -> valid_pkg (rq_name r) = true -> no_option_marker (rq_line r y) = true ->
+  wf_rq_rec r = true -> wf_rq_rlay y = true -> valid_pkg (rq_name r) = true ->
   req_lines (rq_line r y :: rest) tl None = cons_out [(rq_name r, rq_version r)] (req_lines rest tl None).
 Proof.
-  intros Hr Hy Hv Ho. pose proof (rq_line_safe r y Hr Hy) as Hs. cbn [req_lines].
+  intros Hr Hy Hv. pose proof (rq_line_safe r y Hr Hy) as Hs. cbn [req_lines].
   unfold remove_comments. rewrite rm_comment_nohash by (apply safe_no_byte; [cbn; tauto|exact Hs]). cbn [rev app].
   rewrite has_env_nodollar by (apply safe_no_byte; [cbn; tauto|exact Hs]).
   rewrite ends_bslash_none by (apply safe_no_byte; [cbn; tauto|exact Hs]).
@@ -244,11 +308,13 @@ Proof.
 Qed.
 
 (* ------------------------------------------------------------------ lines without a requirement *)
-Lemma cut_options_forall (P : N -> bool) s : forallb P s = true -> forallb P (cut_options s) = true.
+Lemma cut_opt_ws_forall (P : N -> bool) s : forallb P s = true -> forallb P (cut_opt_ws s) = true.
 Proof.
   induction s as [|c s IH]; intros H; [reflexivity|]. cbn [forallb] in H. apply andb_true_iff in H as [H1 H2].
-  cbn [cut_options]. destruct (option_here (c :: s)); [reflexivity|]. cbn [forallb]. now rewrite H1, IH.
+  cbn [cut_opt_ws]. destruct (re_space c && option_here s); [reflexivity|]. cbn [forallb]. now rewrite H1, IH.
 Qed.
+Lemma cut_options_forall (P : N -> bool) s : forallb P s = true -> forallb P (cut_options s) = true.
+Proof. intros H. unfold cut_options. destruct (option_here s); [reflexivity|now apply cut_opt_ws_forall]. Qed.
 
 Lemma req_logical_blank ws : forallb blank_byte ws = true -> req_logical ws = Ok [].
 Proof.
@@ -257,9 +323,10 @@ Qed.
 
 Lemma req_logical_dash t : req_logical (DASH :: t) = Ok [].
 Proof.
-  unfold req_logical. cbn [cut_options]. destruct (option_here (DASH :: t)); [reflexivity|].
+  unfold req_logical, cut_options. destruct (option_here (DASH :: t)); [reflexivity|].
+  cbn [cut_opt_ws]. change (re_space DASH) with false. cbn [andb].
   unfold remove_ws. cbn [filter]. change (rw_space DASH) with false. cbn [negb].
-  set (Y := filter (fun c => negb (rw_space c)) (cut_options t)).
+  set (Y := filter (fun c => negb (rw_space c)) (cut_opt_ws t)).
   unfold before_semi. cbn [cut]. change (DASH =? SEMI) with false. cbv iota.
   destruct (cut SEMI Y) as [[a b]|]; cbn [index nth_error bind]; unfold remove_extras; cbn [rm_extras];
     change (DASH =? LBR) with false; change (DASH =? RBR) with false; cbv iota; cbn [is_nil has_prefix];
@@ -321,15 +388,14 @@ Lemma hd_tl_rq ys : forallb wf_rq_rlay ys = true ->
 Proof. destruct ys; cbn [forallb hd tl]; intros H; [split; reflexivity|]. now apply andb_true_iff in H. Qed.
 
 Lemma rq_tokens_ok : forall rs ys after,
-  wf_rq_records rs = true -> forallb wf_rq_rlay ys = true -> rq_lines_in_D rs ys = true ->
+  wf_rq_records rs = true -> forallb wf_rq_rlay ys = true -> forallb (fun r => valid_pkg (rq_name r)) rs = true ->
   forallb (fun ne => wf_rq_noise (fst ne)) after = true ->
   req_lines (map fst (rq_recs_lines rs ys ++ rq_noise_lines after)) false None = Ok (expected_requirements rs).
 Proof.
   induction rs as [|r rs IH]; intros ys after Hr Hy Hd Ha.
   - cbn [rq_recs_lines app]. rewrite <- (app_nil_r (map fst _)). now rewrite rq_noise_lines_skip.
   - cbn [wf_rq_records forallb] in Hr. apply andb_true_iff in Hr as [Hr Hrs].
-    destruct (hd_tl_rq ys Hy) as [Hh Ht]. cbn [rq_lines_in_D] in Hd. apply andb_true_iff in Hd as [Hd Hd3].
-    apply andb_true_iff in Hd as [Hd1 Hd2].
+    destruct (hd_tl_rq ys Hy) as [Hh Ht]. cbn [forallb] in Hd. apply andb_true_iff in Hd as [Hd1 Hd3].
     pose proof (wf_rq_rlay_parts _ Hh) as (B & _).
     cbn [rq_recs_lines]. rewrite <- app_assoc, map_app, rq_noise_lines_skip by exact B.
     cbn [app map fst]. rewrite rq_record_step by assumption.
@@ -387,7 +453,7 @@ Definition rq_plain_layout : rq_layout := {| ry_recs := []; ry_after := []; ry_f
 Lemma requirements_refuted_lemma :
   exists rs l, wf_rq_records rs = true /\ wf_rq_layout rs l = true /\
                parse_requirements (render_requirements rs l) <> Ok (expected_requirements rs).
-Proof. exists rq_flask, rq_plain_layout. split; [reflexivity|]. split; [reflexivity|]. vm_compute. discriminate. Qed.
+Proof. exists rq_zope, rq_plain_layout. split; [reflexivity|]. split; [reflexivity|]. vm_compute. discriminate. Qed.
 
 (* ------------------------------------------------------------------ totality on arbitrary bytes *)
 Lemma before_semi_total s : exists x, before_semi s = Ok x.
